@@ -66,7 +66,7 @@ def plan(tier, rnd):
                 items.append(dict(tid=tid, bl=bl, n=2500 if not heavy else 1200, exhaustive=True))
             for bl in ([4, 5, 6] if heavy else [4, 5, 6, 7]):
                 items.append(dict(tid=tid, bl=bl, n=150 if not heavy else {4: 60, 5: 20, 6: 4}[bl], exhaustive=False))
-    for kind in ("array_read", "array_write", "array_2d", "compose", "select_lazy", "reuse_after_guard"):
+    for kind in ("array_read", "array_write", "array_2d", "compose", "select_lazy", "reuse_after_guard", "under_true_guard", "three_level"):
         for bl in (2, 3, 4):
             items.append(dict(tid=kind, bl=bl, n=(25 if tier == "quick" else 500), exhaustive=False))
     rnd.shuffle(items)
@@ -170,6 +170,38 @@ def special_case(kind, bl, rnd):
         c.op_src = "@guarded(c0)\ndef _b():\n    return %s\n_b()\nr = %s" % (op, op)
         c.expr = c.op_src
         return c
+    if kind == "under_true_guard":
+        # the guarded form of every constraint (v*w = y + dummy, guard*dummy = 0) must pin the result just as well
+        from vf.opcases import sample_case
+        pool = [t for t in G.INT_T + G.BOOL_T if t[1] in ("i", "b") and t[0] not in DIV_FAMILY and t[0] not in SKIP and t[0] not in BITWISE_CONST]
+        tid, rty, tmpl = rnd.choice(pool)
+        c = sample_case("guarded:" + tid, tmpl, rty, bl, 0, rnd)
+        n = len(c.inputs)
+        depth = rnd.choice([1, 2])
+        c.inputs = c.inputs + [1] * depth
+        c.pre_src += "".join("c%d = PrivValBool(I[%d])\n" % (d, n + d) for d in range(depth))
+        body = "        return " + c.expr if depth == 2 else "    return " + c.expr
+        if depth == 1:
+            c.op_src = "@guarded(c0)\ndef _b():\n%s\nr = _b()" % body
+        else:
+            c.op_src = "@guarded(c0)\ndef _b():\n    @guarded(c1)\n    def _c():\n%s\n    return _c()\nr = _b()" % body
+        c.expr = c.op_src
+        c.tid = "under_true_guard"
+        return c
+    if kind == "three_level":
+        from vf.opcases import sample_case
+        pool = [t for t in G.INT_T + G.BOOL_T if t[1] in ("i", "b") and t[0] not in DIV_FAMILY and t[0] not in SKIP and t[0] not in BITWISE_CONST
+                and t[0] not in ("pow_ss", "pow_cs", "lshift_ss", "lshift_cs", "rshift_sc", "pow_sc", "lshift_sc")]
+        for _ in range(80):
+            a, b, cc = rnd.choice(pool), rnd.choice(pool), rnd.choice(pool)
+            s1, s2 = "{" + b[1] + "}", "{" + cc[1] + "}"
+            if s1 not in a[2] or s2 not in b[2]:
+                continue
+            mid = b[2].replace(s2, "(" + cc[2] + ")", 1)
+            tmpl = a[2].replace(s1, "(" + mid + ")", 1)
+            c = sample_case("three_level", tmpl, a[1], bl, 0, rnd)
+            return c
+        return None
     if kind == "select_lazy":
         c = Case(kind, "", bl, 0, [], [], "i")
         a, b, cond = rnd.randint(-h, h), rnd.randint(-h, h), rnd.randint(0, 1)
